@@ -17,6 +17,10 @@ Clauses (from the property statement)
   C16.input_unmodified     inputs of accumulate, and of apply unless in_place, keep their bytes (they are read-only)
   C16.in_place             with in_place and a float64 input the values are still right (the result may be the input)
   C16.raises               the real code raised inside the quantifier
+  C16.axis_names           part "axes": "per coefficient of the chosen axis" / "along any axis, as vectors or tensors" for EVERY
+                           legal name of every axis: rank 1..4, each position p named p and p - rank (so a vector's only axis
+                           is named 0 and -1), python int or numpy integer, C / F / strided layout, for accumulate, apply with
+                           statistics (in_place False and True), apply without statistics and the mismatch ValueError
 
 Tolerance: rtol 1e-9 on well-conditioned data: every coefficient has (mean^2 + var)/var <= 1e4, so the cancellation in
 E[x^2] - mean^2 stays far below it; absolute part 1e-9 * (|x| + |mean|)/std for the cancellation in x - mean.
@@ -36,7 +40,8 @@ PROPERTY = "C16"
 ASSUMPTIONS = ["A-REAL", "A-NP-RED", "A-NP-SLICE", "A-IO-CONTAINER"]
 RTOL = 1e-9
 DTYPES = ("float64", "float32", "int16", "int32")
-PARTS = ("global", "global", "global", "local", "mismatch", "loaded")
+PARTS = ("axes", "global", "global", "global", "local", "mismatch", "loaded")
+MAX_RANK = 4
 
 
 # --------------------------------------------------------------------------- data
@@ -75,7 +80,7 @@ def _present(rng, chunk):
     how = int(rng.integers(6))
     neg = bool(rng.integers(2))
     if how == 0:  # one vector at a time
-        return [(np.array(chunk[i]), -1, "vec") for i in range(k)]
+        return [(np.array(chunk[i]), -1 if neg else 0, "vec") for i in range(k)]  # a vector's only axis is named -1 or 0
     if how == 1:
         return [(np.array(chunk), -1 if neg else 1, "2d(k,n)")]
     if how == 2:
@@ -130,7 +135,7 @@ def _apply_inputs(rng, n):
     """Inputs to apply(): a vector and tensors of rank 2..4 with the coefficient axis anywhere."""
     out = []
     dts = list(DTYPES)
-    out.append({"shape": (n,), "axis": -1, "dtype": dts[int(rng.integers(4))], "order": "C"})
+    out.append({"shape": (n,), "axis": -1 if rng.integers(2) else 0, "dtype": dts[int(rng.integers(4))], "order": "C"})
     for _ in range(3):
         rank = int(rng.integers(2, 5))
         pos = int(rng.integers(rank))
@@ -184,19 +189,36 @@ def _compare(res, exp, mag, skip_col, axis):
     return True, worst, ""
 
 
-def _apply_check(std, rng, n, mean, sd, norm_var, skip_col, fails, clause, tag, slack):
-    """Run apply() on a vector and tensors, in and out of place, against the oracle."""
+def _layout(a, how, writeable):
+    """A copy of `a` with the same values and memory layout `how`: "C", "F", or "S" (a strided view: every second
+    element along the last axis of a buffer twice as long; the gaps hold a sentinel nobody may read or write)."""
+    if how == "S" and a.ndim >= 1:
+        big = np.full(a.shape[:-1] + (2 * a.shape[-1],), 77, dtype=a.dtype)
+        big[..., ::2] = a
+        big.flags.writeable = bool(writeable)
+        return big[..., ::2]
+    out = np.array(a, copy=True, order="F" if how == "F" else "C")
+    out.flags.writeable = bool(writeable)
+    return out
+
+
+def _apply_check(std, rng, n, mean, sd, norm_var, skip_col, fails, clause, tag, slack, specs=None):
+    """Run apply() on a vector and tensors, in and out of place, against the oracle. `specs` (optional) fixes the inputs:
+    dicts with shape, axis, dtype, order and optionally in_place, layout ("C"/"F"/"S") and axis_np (axis as np.int64)."""
     results = []
-    for spec in _apply_inputs(rng, n):
+    for spec in (_apply_inputs(rng, n) if specs is None else specs):
         y = _draw_input(rng, spec, mean, sd if sd is not None else np.ones(n))
-        in_place = bool(rng.integers(3) == 0)
-        y_in = np.array(y, copy=True, order="K")
-        if not in_place:
-            y_in.flags.writeable = False
+        in_place = bool(spec["in_place"]) if "in_place" in spec else bool(rng.integers(3) == 0)
+        if "layout" in spec:
+            y_in = _layout(y, spec["layout"], writeable=in_place)
+        else:
+            y_in = np.array(y, copy=True, order="K")
+            if not in_place:
+                y_in.flags.writeable = False
         try:
             with warnings.catch_warnings():
                 warnings.simplefilter("ignore")
-                res = std.apply(y_in, axis=spec["axis"], in_place=in_place)
+                res = std.apply(y_in, axis=np.int64(spec["axis"]) if spec.get("axis_np") else spec["axis"], in_place=in_place)
         except Exception as e:  # noqa
             c = "C16.input_unmodified" if "read-only" in str(e) else "C16.raises"
             fails.append((c, f"{tag}: apply({spec}) in_place={in_place} raised {type(e).__name__}: {e}"))
@@ -457,10 +479,170 @@ def _part_mismatch(case, fails, slack):
     return True
 
 
+def _axis_names(rank):
+    """Every legal name of every axis of an array of this rank: position p is named p and p - rank."""
+    return [(pos, name) for pos in range(rank) for name in (pos, pos - rank)]
+
+
+def _other_dims(rng, total, k):
+    """k positive integers (1 allowed) with product `total`, in random order."""
+    if k == 0:
+        return []
+    dims, rem = [], int(total)
+    for _ in range(k - 1):
+        divs = [d for d in range(1, rem + 1) if rem % d == 0]
+        d = int(divs[int(rng.integers(len(divs)))])
+        dims.append(d)
+        rem //= d
+    dims.append(rem)
+    return [dims[i] for i in rng.permutation(k)]
+
+
+def _part_axes(case, fails, slack):
+    """"apply returns (x - mean)/std per coefficient of the chosen axis"; "any split or order of the same vectors across
+    accumulate calls - along any axis, as vectors or tensors - gives the same transform"; "a tensor is standardised with its
+    own per-coefficient mean and variance over the other axes"; "a mismatching feature dimension raises ValueError"; "the
+    input is untouched unless in_place" -- each for EVERY legal (rank, axis name): rank 1..MAX_RANK, position p named p and
+    p - rank. Rank 1 is a feature vector: its only axis is named 0 or -1."""
+    from pydrobert.speech.post import Standardize
+
+    rng = _common.make_rng(int(case["seed"]), "c16-axes")
+    n, N, norm_var = int(case["n"]), max(2, int(case["N"])), bool(case["norm_var"])
+    axis_np = bool(case.get("axis_np"))
+    dt = np.dtype(case["dtype"])
+    D = _dataset(rng, N, n, case["dtype"], None)
+    D64 = D.astype(np.float64)
+    mean, sd = D64.mean(axis=0), np.sqrt(D64.var(axis=0))
+    ax_of = (lambda a: np.int64(a)) if axis_np else (lambda a: a)
+    probe_spec = {"shape": (3, n), "axis": -1, "dtype": "float64", "order": "C", "in_place": False}
+    LIMIT = 4  # messages per case
+
+    names = [(rank, pos, name) for rank in range(1, MAX_RANK + 1) for pos, name in _axis_names(rank)]
+    # ---- accumulate along every axis name: same vectors, same transform ------------------------------------------------
+    for rank, pos, name in names:
+        if len(fails) >= LIMIT:
+            return True
+        layout = "CFS"[int(rng.integers(3))]
+        if rank == 1:
+            calls = [(D[i], f"vector({n},)") for i in range(N)]
+        else:
+            dims = _other_dims(rng, N, rank - 1)
+            t = np.moveaxis(D.reshape(dims + [n]), -1, pos)
+            calls = [(t, f"tensor{tuple(t.shape)}")]
+        std = Standardize(norm_var=norm_var)
+        ok = True
+        for arr, descr in calls:
+            x = _layout(arr, layout, writeable=False)
+            try:
+                with warnings.catch_warnings():
+                    warnings.simplefilter("ignore")
+                    std.accumulate(x, axis=ax_of(name))
+            except Exception as e:  # noqa
+                c = "C16.input_unmodified" if "read-only" in str(e) else "C16.raises"
+                fails.append((c, f"axes: accumulate({descr} {dt.name} layout {layout}, axis={name}) with {n}-coefficient vectors raised {type(e).__name__}: {e}"))
+                ok = False
+                break
+            if x.tobytes() != np.ascontiguousarray(arr).tobytes():
+                fails.append(("C16.input_unmodified", f"axes: accumulate({descr}, axis={name}) changed its input"))
+        if not ok:
+            continue
+        if not std.have_stats:
+            fails.append(("C16.have_stats", f"axes: have_stats falsy after accumulate({calls[0][1]}, axis={name})"))
+            continue
+        prng = _common.make_rng(int(case["seed"]), "c16-axes-probe")
+        _apply_check(std, prng, n, mean, sd, norm_var, None, fails, "C16.additive", f"axes: after accumulate({calls[0][1]} x{len(calls)}, axis={name}, layout {layout})", slack, specs=[probe_spec])
+
+    # ---- apply with statistics, every axis name, in_place False and True -----------------------------------------------
+    std = Standardize(norm_var=norm_var)
+    try:
+        with warnings.catch_warnings():
+            warnings.simplefilter("ignore")
+            std.accumulate(_ro(D), axis=-1)
+    except Exception as e:  # noqa
+        fails.append(("C16.raises", f"axes: accumulate(({N},{n}), axis=-1) raised {type(e).__name__}: {e}"))
+        return True
+    specs = []
+    for rank, pos, name in names:
+        shape = [int(rng.choice([1, 2, 3, n])) for _ in range(rank)]  # other axes may have length n too, or 1
+        shape[pos] = n
+        for in_place in (False, True):
+            specs.append({"shape": tuple(shape), "axis": name, "dtype": dt.name, "order": "C", "in_place": in_place, "layout": "CFS"[int(rng.integers(3))], "axis_np": axis_np})
+    for spec in specs:
+        if len(fails) >= LIMIT:
+            return True
+        _apply_check(std, rng, n, mean, sd, norm_var, None, fails, "C16.global_values", "axes: with statistics", slack, specs=[spec])
+
+    # ---- apply without statistics: own moments over the other axes, every axis name of rank >= 2 -----------------------
+    for rank, pos, name in names:
+        if rank == 1:
+            continue  # "a tensor is standardised with its own ..." : a lone vector is outside the clause
+        if len(fails) >= LIMIT:
+            return True
+        dims = _other_dims(rng, N, rank - 1)
+        t = np.moveaxis(D.reshape(dims + [n]), -1, pos)
+        exp, mag = _expected(t, name, mean, sd if norm_var else None)
+        for in_place in (False, True):
+            layout = "CFS"[int(rng.integers(3))]
+            x = _layout(t, layout, writeable=in_place)
+            what = f"axes: no statistics, apply(tensor{tuple(t.shape)} {dt.name} layout {layout}, axis={name}, in_place={in_place})"
+            loc = Standardize(norm_var=norm_var)
+            try:
+                with warnings.catch_warnings():
+                    warnings.simplefilter("ignore")
+                    res = loc.apply(x, axis=ax_of(name), in_place=in_place)
+            except Exception as e:  # noqa
+                fails.append(("C16.input_unmodified" if "read-only" in str(e) else "C16.raises", f"{what} raised {type(e).__name__}: {e}"))
+                continue
+            if not isinstance(res, np.ndarray) or res.dtype != np.float64 or res.shape != t.shape:
+                fails.append(("C16.dtype_shape", f"{what} returned {getattr(res, 'dtype', None)} {getattr(res, 'shape', None)}"))
+                continue
+            if (not in_place or dt != np.float64) and x.tobytes() != np.ascontiguousarray(t).tobytes():
+                fails.append(("C16.input_unmodified", f"{what} changed its input"))
+            okc, worst, msg = _compare(res, exp, mag, None, name)
+            slack[0] = max(slack[0], worst)
+            if not okc:
+                fails.append(("C16.in_place" if in_place and dt == np.float64 else "C16.local_values", f"{what}: {msg}"))
+
+    # ---- mismatching feature dimension on the chosen axis, every axis name ---------------------------------------------
+    m = n + int(rng.choice([1, 2])) if n == 1 else n + int(rng.choice([-1, 1, 2]))
+    probe = _ro(D64[:2])
+    with warnings.catch_warnings():
+        warnings.simplefilter("ignore")
+        try:
+            before = std.apply(probe, axis=-1)
+        except Exception as e:  # noqa
+            fails.append(("C16.raises", f"axes: apply(({2},{n}), axis=-1) raised {type(e).__name__}: {e}"))
+            return True
+    for rank, pos, name in names:
+        if len(fails) >= LIMIT:
+            return True
+        shape = [int(rng.choice([1, 2, n])) for _ in range(rank)]  # the OTHER axes may well have the right length
+        shape[pos] = m
+        arr = (rng.standard_normal(shape) * 3).astype(dt)
+        x = _ro(arr)
+        what = f"tensor{tuple(shape)} {dt.name} axis={name} after {n}-coefficient statistics"
+        _expect_value_error(lambda: std.apply(x, axis=ax_of(name), in_place=bool(pos % 2)), "axes: apply " + what, fails)
+        _expect_value_error(lambda: std.accumulate(x, axis=ax_of(name)), "axes: accumulate " + what, fails)
+        if x.tobytes() != arr.tobytes():
+            fails.append(("C16.mismatch_raises", f"axes: {what}: input changed although ValueError"))
+    with warnings.catch_warnings():
+        warnings.simplefilter("ignore")
+        try:
+            after = std.apply(probe, axis=-1)
+        except Exception as e:  # noqa
+            fails.append(("C16.mismatch_raises", f"axes: apply fails after rejected calls: {type(e).__name__}: {e}"))
+            return True
+    if before.tobytes() != after.tobytes():
+        fails.append(("C16.mismatch_raises", "axes: rejected calls changed the statistics"))
+    return True
+
+
 def _check(case, tmpdir, slack):
     fails = []
     part = case["part"]
-    if part == "global":
+    if part == "axes":
+        nt = _part_axes(case, fails, slack)
+    elif part == "global":
         nt = _part_global(case, fails, slack)
     elif part == "loaded":
         nt = _part_loaded(case, fails, slack, tmpdir)
@@ -492,6 +674,7 @@ def _cases(tier, seed):
                         "n": n,
                         "N": N,
                         "const_col": bool(rng.integers(5) == 0),
+                        "axis_np": bool(rng.integers(4) == 0),
                         "plans": 4 if tier == "quick" else 6,
                         "seed": int(seed) * 1000003 + k,
                     }
@@ -519,15 +702,21 @@ def run(tier: str, seed: int) -> dict:
                 col.fail(clause, case, msg)
     finally:
         shutil.rmtree(tmpdir, ignore_errors=True)
-    col.note(f"cases per part: {per_part}")
+    col.note(f"cases per part: {per_part}; each `axes` case makes {sum(2 * r for r in range(1, MAX_RANK + 1))} accumulate histories, {2 * sum(2 * r for r in range(1, MAX_RANK + 1))} applies with statistics, "
+             f"{2 * sum(2 * r for r in range(2, MAX_RANK + 1))} without, and {2 * sum(2 * r for r in range(1, MAX_RANK + 1))} rejected calls")
     col.note(f"worst |apply - oracle| relative to (|x|+|mean|)/std: {slack[0]:.3g}; worst relative difference between two accumulation plans: {slack[1]:.3g} (tolerance {RTOL:g})")
     return col.result(
-        rule="case = (part, dtype, norm_var, n coefficients, N vectors, seed). global: the data set is accumulated under `plans` independent plans "
-        "(plan 0 in order, the others permuted; random chunks of 1..12 vectors; each chunk given as single vectors, (k,n), (n,k), (a,b,n), (a,n,b) or F-ordered (n,a,1,b) "
-        "with positive or negative axis) and apply() is run on a vector and three tensors of rank 2..4 (random axis, dtype, order, in_place) after each plan; "
+        rule="case = (part, dtype, norm_var, n coefficients, N vectors, axis_np, seed). axes: EVERY legal axis name (rank 1..4, each position p named p and p - rank: 20 names; "
+        "rank 1 = a feature vector whose only axis is named 0 or -1; python int, or np.int64 when axis_np) is used (a) to accumulate the whole data set along it "
+        "(vectors one by one / one tensor, C, F or strided layout) followed by a fixed probe apply, (b) to apply with statistics with in_place False and True "
+        "(other axes of length 1, 2, 3 or n), (c) rank >= 2: to apply without statistics, in_place False and True, (d) to apply/accumulate a tensor whose chosen "
+        "axis has the wrong length while other axes may have the right one (ValueError, statistics unchanged). "
+        "global: the data set is accumulated under `plans` independent plans "
+        "(plan 0 in order, the others permuted; random chunks of 1..12 vectors; each chunk given as single vectors (axis 0 or -1), (k,n), (n,k), (a,b,n), (a,n,b) or F-ordered (n,a,1,b) "
+        "with positive or negative axis) and apply() is run on a vector (axis 0 or -1) and three tensors of rank 2..4 (random axis, dtype, order, in_place) after each plan; "
         "loaded: statistics file written from hand-made sums, then more accumulated on top; local: no statistics; mismatch: wrong feature dimension. "
         "A case is non-trivial unless the data set is a single vector with norm_var (variance 0).",
-        bound=f"BOUNDED: seeded random data, n <= 12 coefficients, N <= 40 vectors, dtypes float64/float32/int16/int32, every coefficient with (mean^2+var)/var <= 1e4 "
+        bound=f"BOUNDED: seeded random data, n <= 12 coefficients, N <= 40 vectors, rank <= {MAX_RANK} (all 20 axis names of ranks 1..{MAX_RANK} in every `axes` case), dtypes float64/float32/int16/int32, every coefficient with (mean^2+var)/var <= 1e4 "
         f"(means up to 50 std, either sign); time-boxed ({budget:.0f} s)",
         assumptions=ASSUMPTIONS,
     )
